@@ -65,6 +65,9 @@ def St.alias (s : St) : Bool :=
 
 def belowB (p : Pol) : Bool := p.layers.all (fun l => decide (p.ctr + 1 + l.length < 9223372036854775808))
 
+/-- `m` more picks stay below the counter bound (every pick of the run has `ctr + 1 + layer length < 2^63`) -/
+def belowM (p : Pol) (m : Nat) : Bool := p.layers.all (fun l => decide (p.ctr + m + l.length < 9223372036854775808))
+
 /-- the replica list of a query (after shuffling) and whether it is guaranteed FRESH: it comes from the token
 ring (rebuilt on every change of the policy's host list) or from the table of the SESSION keyspace (recomputed
 on every such change) — and no hook line has installed a table for the session keyspace -/
@@ -167,6 +170,12 @@ def checkList (name : String) (conf : Nat → Bool) (model pre obs : List Host) 
   next <slot> <n>                                  up to n calls of the iterator → ids [end]
   offerit <slot>                                   SPEC-BACKED: drain the rest of the iterator → sorted ids of EVERYTHING it
                                                    offered since `open` (`C11_iterators_independent`: what a lone pick offers)
+  rotate <ks|-> <tok|-> <m>                        SPEC-BACKED: <m> successive Picks, each drained, nothing in between →
+                                                   `balanced` | `skewed:<tier>`: per tier, how often each host is the FIRST
+                                                   one offered from the tier after the replica phases (`tierBalanced`);
+                                                   `C11_rotation_balanced_partial` proves `balanced` for the model;
+                                                   `excluded` (nothing done) under an excluded condition of `offer` or
+                                                   the counter bound
   burst <call>:<id> ...                            the calls run CONCURRENTLY (one goroutine each) → ok
   settle L0=.. L1=.. L2=.. [T=..]                  SPEC-BACKED: the lists observed after the burst → ok | lost/phantom/dup/reordered -/
 def step (s : St) (ws : List String) : St × String :=
@@ -249,6 +258,7 @@ def step (s : St) (ws : List String) : St × String :=
       let s' := if op == "add" || op == "remove" then { s' with taint := s'.taint.filter (· != h.id) } else s'
       (s', snapshot s')
   | ["state", id, v] =>
+    if (s.host? (nat id)).isNone then (s, "bad-op") else
     ({ s with down := if v == "1" then s.down.filter (· != nat id) else nat id :: s.down.filter (· != nat id), slots := [] }, "ok")
   | "repl" :: ks :: tab =>
     let t' : TA := if s.t.partSet then s.t.setReplicas (nat ks) (parseTable s tab) else s.t
@@ -266,6 +276,19 @@ def step (s : St) (ws : List String) : St × String :=
     else
       let (t', _) := s.t.pick s.up σ rk 1000
       ({ s with t := t' }, s.specOffer)
+  | ["rotate", ks, tok, ms] =>
+    let m := nat ms
+    let rk := parseRk ks tok
+    let rf := s.repsOf id rk
+    if s.offerExcluded rf.1 rf.2 || !belowM s.t.pol m then (s, "excluded")
+    else
+      let σs : Nat → List Host → List Host := fun _ l => l
+      let runs := TA.rotateRun s.t s.up σs rk 0 m
+      let s' := { s with t := Nat.repeat TA.drained m s.t }
+      if runs.any (fun r => r.2.crashed) then (s', "crash:index-out-of-range")
+      else (s', match s.t.rotateVerdict s.up σs rk m with
+        | none => "balanced"
+        | some t => "skewed:" ++ toString t)
   | ["open", slot, ks, tok, perms] =>
     let σ := applyPerm (parsePerms perms)
     let rk := parseRk ks tok
